@@ -517,9 +517,29 @@ struct rv_runner
             VF_COUNT("rv/resize/down");
           else
             VF_COUNT("rv/resize/same");
-          r.resize(ns, v);
-          s.resize(ns, v);
-          compare(r, s, "resize");
+          if (n > 0 && g.chance(1, 3))
+          {
+            // the fill value refers to an element of the vector itself (v.resize(k, v.back())): std::vector copies the
+            // value it was handed, also when growing reallocates
+            std::size_t const a = g.below(n);
+            T const expect = s[a];
+            vf::extend_case("[value aliases element %zu]", a);
+            if (ns > r.capacity())
+              VF_COUNT("rv/resize_alias/realloc");
+            else if (ns > n)
+              VF_COUNT("rv/resize_alias/inplace-grow");
+            else
+              VF_COUNT("rv/resize_alias/no-growth");
+            r.resize(ns, r[a]);
+            s.resize(ns, expect);
+            compare(r, s, "resize-alias");
+          }
+          else
+          {
+            r.resize(ns, v);
+            s.resize(ns, v);
+            compare(r, s, "resize");
+          }
         }
         break;
         case 13:
@@ -1101,7 +1121,7 @@ void read_from_cases()
 
 void body()
 {
-  for (char const *b : {"rv/move/ctor-source-reused", "rv/move/assign-source-reused", "rv/alloc-failure/any", "buf/resize_write_area/allocation-failed", "buf/read_from", "buf/read_from_opt/success", "buf/read_from_opt/failure", "dynamic_array/sizes"})
+  for (char const *b : {"rv/resize_alias/realloc", "rv/resize_alias/inplace-grow", "rv/move/ctor-source-reused", "rv/move/assign-source-reused", "rv/alloc-failure/any", "buf/resize_write_area/allocation-failed", "buf/read_from", "buf/read_from_opt/success", "buf/read_from_opt/failure", "dynamic_array/sizes"})
     vf::require_bucket(b);
   for (char const *b :
        {"rv/ctor/default", "rv/ctor/count", "rv/ctor/forward-range", "rv/ctor/input-range", "rv/ctor/initializer-list",
